@@ -490,6 +490,33 @@ def copies(chk, P):
     incs = [(b, e) for b, _, e in f2.events(lambda e: bool(ev_write(e)) and field_of(ev_write(e)[0]) == SI + "::systemStageVersions")]
     chk.judge(bool(incs) and all(_in_loop(f2, b) and bool(sx_find(ev_write(e)[2], lambda y: y[0] in ("op", "opc") and y[1] == "+")) for b, e in incs),
               "COPY", f2.id + ":stage-versions-above-source", f2.loc, "every copied system stage version is set above the source's")
+    # PerSubsystemInfo::copyFrom: the destination's stage versions must be (re)assigned for EVERY stage: copied up to the target
+    # stage, and raised above the source's for all later stages up to the end of the array -- otherwise a copied cache entry
+    # computed at a later stage before the source was backed up reads as valid again in the copy
+    pc = P.fn(PSI + "::copyFrom")
+    vw = [(b, i, e) for b, i, e in pc.events(lambda e: bool(ev_write(e)) and field_of(ev_write(e)[0]) == PSI + "::stageVersions")]
+    loops = pc.loops()
+    heads = {}
+    for b, i, e in vw:
+        for h in pc.loops_of(b)[:1]:
+            heads[h] = (b, e)
+    chk.judge(len(heads) == 2, "COPY", pc.id + ":two-version-loops", pc.loc, "stage versions are written in two loops (copied part, invalidated part); found %d" % len(heads))
+    covers_end = False
+    starts_zero = False
+    raised = False
+    for h, (b, e) in heads.items():
+        c = pc.blocks[h]["term"].get("cond")
+        if sx_find(c, lambda y: y[0] == "enum" and y[1] == "SimTK::Stage::NValid") and c[0] == "op" and c[1] == "<":
+            covers_end = True
+            raised = bool(sx_find(ev_write(e)[2], lambda y: y[0] in ("op", "opc") and y[1] == "+")) and field_of(ev_write(e)[2][2] if ev_write(e)[2][0] in ("op", "opc") else None) == PSI + "::stageVersions"
+        iv = var_of(c[2]) if isinstance(c, list) and len(c) > 2 else None
+        d = [dd for _, _, dd in pc.events(lambda dd: dd["k"] == "decl" and dd["var"] == iv)]
+        if any(_is_lit(dd["init"], "0") for dd in d):
+            starts_zero = True
+    chk.judge(starts_zero, "COPY", pc.id + ":versions-from-stage-0", pc.loc, "the copied part starts at stage 0")
+    chk.judge(covers_end, "COPY", pc.id + ":versions-cover-all-stages", pc.loc,
+              "the invalidated part must run to Stage::NValid (all stages above the target stage), not only to the source's current stage")
+    chk.judge(raised, "COPY", pc.id + ":later-stage-versions-raised-above-source", pc.loc, "stages above the target get src.stageVersions[i] + 1")
     # StateImpl copy ctor / assignment
     cc = [m for m in P.methods_of(SI) if m.kind == "copyctor"]
     chk.require(len(cc) == 1, "StateImpl copy constructor not found")
@@ -675,6 +702,9 @@ def forward(chk, P):
 _H = "SimTKcommon/Simulation/include/SimTKcommon/internal/StateImpl.h"
 _C = "SimTKcommon/Simulation/src/State.cpp"
 MUTATIONS = [
+    dict(name="copy leaves later stage versions untouched (pre-fix code)", arm=True, file=_C,
+         old="    for (int i=targetStage+1; i<Stage::NValid; ++i)\n        stageVersions[i] = src.stageVersions[i] + 1;",
+         new="    for (int i=targetStage+1; i<=src.currentStage; ++i)\n        stageVersions[i] = src.stageVersions[i] + 1;", expect="versions-cover-all-stages"),
     dict(name="updQ() drops noteQChange", arm=True, file=_H,
          old="        invalidateAll(Stage::Position);\n        noteQChange();\n        return q;",
          new="        invalidateAll(Stage::Position);\n        return q;", expect="updQ()->q+noteQChange"),
